@@ -6,7 +6,7 @@ import core
 import gen
 from props import corefam, C02
 
-LEVEL = "translation_validation"
+LEVEL = "proof"
 
 NSLOT, BITS = 16, 64
 
